@@ -87,6 +87,40 @@ def rat32(v):
     return z3.RealVal(str(f))
 
 
+_MP_FUNCS = ('sin', 'cos', 'exp', 'log', 'atan', 'asin', 'acos', 'tanh', 'expm1', 'log1p', 'sqrt', 'cbrt')
+
+
+def _mp_enclosure(name, num, den):
+    """rational enclosure [lo, hi] of f(num/den), width 2e-40 relative/absolute, via mpmath at 60 digits"""
+    try:
+        import mpmath
+    except ImportError:
+        return None
+    mpmath.mp.dps = 60
+    x = mpmath.mpf(num) / mpmath.mpf(den) if den is not None else num
+    try:
+        f = {'sin': mpmath.sin, 'cos': mpmath.cos, 'exp': mpmath.exp, 'log': mpmath.log, 'atan': mpmath.atan, 'asin': mpmath.asin,
+             'acos': mpmath.acos, 'tanh': mpmath.tanh, 'expm1': mpmath.expm1, 'log1p': mpmath.log1p, 'sqrt': mpmath.sqrt,
+             'cbrt': mpmath.cbrt}[name]
+        y = f(x)
+        if not isinstance(y, mpmath.mpf) or not mpmath.isfinite(y):
+            return None
+    except Exception:
+        return None
+    eps = (abs(y) + 1) * mpmath.mpf(10) ** -40
+    lo, hi = y - eps, y + eps
+
+    def q(z):
+        man, exp = mpmath.frexp(z)
+        fr = fractions.Fraction(int(mpmath.floor(mpmath.ldexp(man, 200))), 2 ** 200) * fractions.Fraction(2) ** int(exp)
+        return fr
+    flo, fhi = q(lo), q(hi)
+    # floor-based conversion errs downwards by < 2^-200 relative: widen hi by one unit to stay an enclosure
+    fhi = fhi + abs(fhi) * fractions.Fraction(1, 2 ** 190) + fractions.Fraction(1, 10 ** 60)
+    flo = flo - abs(flo) * fractions.Fraction(1, 2 ** 190) - fractions.Fraction(1, 10 ** 60)
+    return z3.RealVal(str(flo)), z3.RealVal(str(fhi))
+
+
 def is_zero(x):
     return z3.is_rational_value(x) and x.numerator_as_long() == 0
 
@@ -174,11 +208,71 @@ class Ctx:
         v = self.fresh(name)
         self.tf[key] = (v, a)
         self.tfvar[v.get_id()] = (name, a, v)
+        if name in _MP_FUNCS and not z3.is_rational_value(a):
+            cv = self.const_value(a)
+            if cv is not None:
+                enc = _mp_enclosure(name, cv, None)
+                if enc is not None:
+                    self.axioms += [v >= enc[0], v <= enc[1]]
+                    self.stubs.add('constant expressions under transcendental functions evaluated with mpmath (60 digits), enclosure 1e-40')
+        if z3.is_rational_value(a) and name in _MP_FUNCS:
+            enc = _mp_enclosure(name, a.numerator_as_long(), a.denominator_as_long())
+            if enc is not None:
+                self.axioms += [v >= enc[0], v <= enc[1]]
+                self.stubs.add('constants f(c) of transcendental functions enclosed to 1e-40 with mpmath (60 digits)')
         if name == 'sqrt':
             self.axioms += [v >= 0, v * v == a]
         elif name == 'cbrt':
             self.axioms += [v * v * v == a]
         return v
+
+    def const_value(self, e):
+        """mpmath value of a term without free input variables (rationals, pi, abstraction variables of constants), else None"""
+        try:
+            import mpmath
+        except ImportError:
+            return None
+        mpmath.mp.dps = 60
+        if z3.is_rational_value(e):
+            return mpmath.mpf(e.numerator_as_long()) / mpmath.mpf(e.denominator_as_long())
+        if z3.is_const(e):
+            if str(e) == 'pi':
+                return mpmath.pi
+            ent = self.tfvar.get(e.get_id())
+            if ent is None or isinstance(ent[1], tuple):
+                return None
+            av = self.const_value(ent[1])
+            if av is None:
+                return None
+            try:
+                f = {'sin': mpmath.sin, 'cos': mpmath.cos, 'exp': mpmath.exp, 'log': mpmath.log, 'atan': mpmath.atan,
+                     'asin': mpmath.asin, 'acos': mpmath.acos, 'tanh': mpmath.tanh, 'expm1': mpmath.expm1, 'log1p': mpmath.log1p,
+                     'sqrt': mpmath.sqrt, 'cbrt': mpmath.cbrt}[ent[0]]
+                r = f(av)
+                return r if isinstance(r, mpmath.mpf) else None
+            except Exception:
+                return None
+        ch = [self.const_value(c) for c in e.children()]
+        if any(c is None for c in ch):
+            return None
+        d = e.decl().kind()
+        try:
+            if d == z3.Z3_OP_ADD:
+                return sum(ch[1:], ch[0])
+            if d == z3.Z3_OP_SUB:
+                return ch[0] - sum(ch[2:], ch[1]) if len(ch) > 1 else -ch[0]
+            if d == z3.Z3_OP_UMINUS:
+                return -ch[0]
+            if d == z3.Z3_OP_MUL:
+                r = ch[0]
+                for c in ch[1:]:
+                    r = r * c
+                return r
+            if d == z3.Z3_OP_DIV:
+                return ch[0] / ch[1] if ch[1] != 0 else None
+        except Exception:
+            return None
+        return None
 
     # ---- decisions
     def feasible(self, extra):
@@ -911,9 +1005,24 @@ def _index_put(m, func, args, kwargs):
     inplace = str(func).split('.')[1].endswith('_')
     out = func(self_t, idxs, vals, *args[3:], **kwargs)
     tgt = self_t if inplace else out
+    tgt_out = tgt
     if accumulate:
-        ft = m.full_terms(self_t) if False else ft
-        raise Unsupported('index_put accumulate')
+        acc = [to_real(t) for t in m.full_terms(self_t)]
+        with _disable_current_modes():
+            T_ids = torch.arange(self_t.numel()).view(self_t.shape)
+            tgt = aten.index.Tensor(T_ids, idxs)
+            vexp = torch.arange(vals.numel()).view(vals.shape).expand(tgt.shape).reshape(-1).tolist()
+            tgt = tgt.reshape(-1).tolist()
+        fvv = [to_real(t) for t in m.full_terms(vals)]
+        for t, v in zip(tgt, vexp):
+            acc[t] = acc[t] + fvv[v]
+        ptot = None
+        if track:
+            ptot = list(pt)
+            for t, v in zip(tgt, vexp):
+                ptot[t] = _por([ptot[t], pv[v]])
+        m.write(tgt_tensor_placeholder if False else tgt_out, [simp(a) for a in acc], ptot)
+        return out
     n = self_t.numel()
     with _disable_current_modes():
         ids = torch.arange(n, dtype=torch.float64).view(self_t.shape).clone()
